@@ -655,6 +655,13 @@ pub fn finish_check(out: CheckOut, tier: Tier, seed: u64, wall: Instant) -> i32 
     coverage.insert("rare_branch_probes".into(), json!(total.probes));
     coverage.insert("distinct_interleavings".into(), json!(total.shapes.len()));
     coverage.insert("distinct_abstract_states".into(), json!(total.states.len()));
+    coverage.insert("measures".into(), json!({
+        "distinct_interleavings": "distinct sequences of event kinds in the per-run event log (shape hash; details such as keys and byte counts excluded)",
+        "distinct_abstract_states": "scenario-specific abstract states recorded during the run: coord/coord-real = (sync state of both peers for each other, resync flags, number of unresolved dials); crash = distinct reopened crash images; pair = (messages, |A|, |B|); swarm/events = final state digest; others record none",
+        "distinct_nontrivial": "distinct full event-log hashes among runs in which at least one fault kind fired or a rare-branch probe was hit",
+        "faults_fired": "number of times each fault kind actually took effect (not merely was enabled)",
+        "simulated_seconds": "virtual time advanced by the paused clock (barriers count 1 ms each); store-level scenarios have no clock and report 0"
+    }));
     coverage.insert("batches".into(), Value::Array(batches));
     coverage.insert("known_findings_hit".into(), json!(known_hits));
     if let Some(e) = out.exhaustive {
